@@ -90,7 +90,7 @@ package client
 
 // ---- condition.go (C08): WhereAll = all conditions in one list, WhereAny = one
 // list per condition; Matches = union over the lists --------------------------
-//@ func generateOvsdbConditionsFromModelConditions
+//@ func generateOvsdbConditionsFromModelConditions group c08
 //@ requires info != nil
 //@ modifies nothing
 //@ ensures_ok singleOp ==> (len(result0) == 1 && len(result0[0]) == len(conditions) && (forall i: int :: 0 <= i && i < len(conditions) ==> (result0[0][i].Column == condCol(info.Obj, conditions[i].Field) && result0[0][i].Function == conditions[i].Function && result0[0][i].Value == condVal(info.Obj, conditions[i].Field, conditions[i].Value))))
@@ -99,7 +99,7 @@ package client
 //@ loop 1 invariant singleOp ==> (len(anyConditions) == 1 && (cap(anyConditions[0]) > 0 ==> fresh(anyConditions[0])) && len(anyConditions[0]) == rangeindex + 1 && (forall i: int :: 0 <= i && i <= rangeindex ==> (anyConditions[0][i].Column == condCol(info.Obj, conditions[i].Field) && anyConditions[0][i].Function == conditions[i].Function && anyConditions[0][i].Value == condVal(info.Obj, conditions[i].Field, conditions[i].Value))))
 //@ loop 1 invariant !singleOp ==> (len(anyConditions) == rangeindex + 1 && (forall i: int :: 0 <= i && i <= rangeindex ==> (len(anyConditions[i]) == 1 && allocated(anyConditions[i]) && anyConditions[i][0].Column == condCol(info.Obj, conditions[i].Field) && anyConditions[i][0].Function == conditions[i].Function && anyConditions[i][0].Value == condVal(info.Obj, conditions[i].Field, conditions[i].Value))))
 
-//@ func (*explicitConditional).Matches
+//@ func (*explicitConditional).Matches group c08
 //@ requires c != nil && c.cache != nil
 //@ modifies nothing
 //@ ensures_ok result0 != nil && fresh(result0)
